@@ -47,13 +47,48 @@ def design(cfg, workers=8, timeout=1500, heap="6g"):
     return r, table
 
 
-def negatives(names):
+def negatives_start(names):
+    """Negative controls run in the background while the exhaustive run is busy; join with negatives_join."""
+    vlib.spec_copy()
+
     def one(n):
         return n, vlib.tlc("PoolMC", "Pool_neg_%s.cfg" % n, workers=2, timeout=900, heap="3g")
-    with concurrent.futures.ThreadPoolExecutor(max_workers=4) as ex:
-        for n, r in ex.map(one, names):
-            vlib.tlc_must_fail(r, "Pool_neg_" + n)
-    return list(names)
+    ex = concurrent.futures.ThreadPoolExecutor(max_workers=3)
+    return ex, [ex.submit(one, n) for n in names]
+
+
+def negatives_join(h):
+    ex, futs = h
+    names = []
+    for f in futs:
+        n, r = f.result()
+        vlib.tlc_must_fail(r, "Pool_neg_" + n)
+        names.append(n)
+    ex.shutdown()
+    return names
+
+
+def both(v, pid, b, d, table, rep, focus, runs):
+    """M2 cases and M1 random traces: drivers one after the other (they time real runs), TLC validations and the
+    binding self-test side by side."""
+    keys = sorted(table)
+    cpath = os.path.join(d, "%s_cases.ndjson" % pid)
+    vlib.write_ndjson(cpath, [table[k]["cfg"] for k in keys])
+    p1 = os.path.join(d, "%s_cases_out.ndjson" % pid)
+    vlib.run_driver(b, ["pool", "-out", p1, "-cases", cpath, "-rep", str(rep)], timeout=3000)
+    p2 = os.path.join(d, "%s_traces_out.ndjson" % pid)
+    vlib.run_driver(b, ["pool", "-out", p2, "-runs", str(runs), "-focus", focus], timeout=3000)
+    rows_c, rows_t = vlib.read_ndjson(p1), vlib.read_ndjson(p2)
+    tag = pid.lower()
+    with concurrent.futures.ThreadPoolExecutor(max_workers=3) as ex:
+        f1 = ex.submit(validate_parallel, v, pid, rows_c, d, tag + "_cases")
+        f2 = ex.submit(validate_parallel, v, pid, rows_t, d, tag + "_traces")
+        f3 = ex.submit(binding_selftest, rows_t, d)
+        val_c, st_c = f1.result()
+        val_t, st_t = f2.result()
+        corrupted = f3.result()
+    cstat = outcome_check(v, pid, rows_c, table, keys, tag + "_cases")
+    return rows_c, rows_t, val_c + val_t, st_c + st_t, cstat, corrupted
 
 
 def _run_rows(rows):
@@ -135,22 +170,7 @@ def validate_parallel(v, pid, rows, d, tag, chunk_lines=60000, par=4):
     return tot_v, tot_s
 
 
-def traces(v, pid, b, d, focus, runs, tag):
-    path = os.path.join(d, "%s.ndjson" % tag)
-    vlib.run_driver(b, ["pool", "-out", path, "-runs", str(runs), "-focus", focus], timeout=3000)
-    rows = vlib.read_ndjson(path)
-    validated, states = validate_parallel(v, pid, rows, d, tag)
-    return rows, validated, states
-
-
-def cases(v, pid, b, d, table, rep, tag):
-    keys = sorted(table)
-    cpath = os.path.join(d, "%s_cases.ndjson" % tag)
-    vlib.write_ndjson(cpath, [table[k]["cfg"] for k in keys])
-    path = os.path.join(d, "%s.ndjson" % tag)
-    vlib.run_driver(b, ["pool", "-out", path, "-cases", cpath, "-rep", str(rep)], timeout=3000)
-    rows = vlib.read_ndjson(path)
-    validated, states = validate_parallel(v, pid, rows, d, tag)
+def outcome_check(v, pid, rows, table, keys, tag):
     # outcome of every run against the outcomes TLC reached for that configuration (plain membership
     # of one abstract value in a set of abstract values computed by the specification)
     confs = {r["run"]: r for r in rows if r["ev"] == "conf"}
@@ -172,13 +192,53 @@ def cases(v, pid, b, d, table, rep, tag):
                         "real engine ended with (created, shots, acquired) = %s; Pool.tla reaches only %s for this "
                         "configuration [%s]" % (out, sorted(table[key]["outs"]), conf["desc"]),
                         replay_obj={"kind": "case", "cfg": c, "allowed": sorted(table[key]["outs"]), "observed": out,
-                                    "events": [x for x in rows if x["run"] == r["run"]]},
+                                    "conf": conf, "events": [x for x in rows if x["run"] == r["run"]]},
                         replay_name="%s_case%d.json" % (tag, conf["case"]))
     known = [k for k in keys if table[k]["cfg"]["t"] >= 0]
     reached = sum(len(seen.get(k, set()) & table[k]["outs"]) for k in known)
     possible = sum(len(table[k]["outs"]) for k in known)
-    return rows, validated, states, {"cases": len(keys), "case_runs": evaluations,
-                                     "spec_outcomes": possible, "spec_outcomes_observed": reached}
+    return {"cases": len(keys), "case_runs": evaluations,
+            "spec_outcomes": possible, "spec_outcomes_observed": reached}
+
+
+def binding_selftest(rows, d):
+    """The trace specification has teeth on THIS run's data: three corrupted copies of recorded runs (a Release
+    entry dropped; a creation instant moved before its startup token; a Left() answer changed) must each be
+    rejected.  Failure here is a failure of the machinery, never a verdict."""
+    by = _run_rows(rows)
+    muts = []
+    for run, rr in sorted(by.items()):
+        rels = [i for i, e in enumerate(rr) if e["ev"] == "rel"]
+        if rels and not any(m[0] == "drop-release" for m in muts):
+            muts.append(("drop-release", rr[:rels[0]] + rr[rels[0] + 1:]))
+        late = [i for i, e in enumerate(rr) if e["ev"] == "bind" and e["inst"] >= 1 and len(e["t"]) >= 2]
+        if late and not any(m[0] == "early-bind" for m in muts):
+            cp = [dict(e) for e in rr]
+            cp[late[-1]]["t"] = []
+            # only meaningful if that token's instant is after the base instant, which it always is (t > 0)
+            muts.append(("early-bind", cp))
+        lefts = [i for i, e in enumerate(rr) if e["ev"] == "left" and e["n"] > 0 and rr[0]["t"] >= 0]
+        if lefts and not any(m[0] == "left-off-by-one" for m in muts):
+            cp = [dict(e) for e in rr]
+            cp[lefts[0]]["n"] -= 1 if cp[lefts[0]]["n"] > 1 else -1
+            muts.append(("left-off-by-one", cp))
+        if len(muts) == 3:
+            break
+    if len(muts) < 3:
+        raise vlib.MachineryError("binding self-test: recorded runs too poor to corrupt (%s)" % [m[0] for m in muts])
+
+    def one(m):
+        name, rr = m
+        p = os.path.join(d, "selftest_%s.ndjson" % name)
+        write_rows(p, rr)
+        return name, vlib.tlc("TracePool", "TracePool.cfg", env={"VERIF_TRACE": p, "VERIF_SEED": vlib.seed()}, workers=1,
+                              deadlock=False, timeout=600, heap="2g")
+    with concurrent.futures.ThreadPoolExecutor(max_workers=3) as ex:
+        for name, tr in ex.map(one, muts):
+            if tr.error or not tr.violation:
+                raise vlib.MachineryError("binding self-test: corrupted trace '%s' was not rejected by TracePool.tla\n%s"
+                                          % (name, tr.out[-1500:]))
+    return [m[0] for m in muts]
 
 
 def sample_of(rows, run):
